@@ -68,6 +68,8 @@ def siblings(ctx, agg: GroupFacts, win: GroupFacts, rule: str, with_vector: bool
 def group_value_flow(ctx, gf: GroupFacts, rule: str) -> None:
     """Each aggregate sees its group's values, unfiltered, in row order, exactly once per group."""
     prog = ctx.prog
+    if gf.partition_error:
+        raise AnalysisError(gf.partition_error)
     gi = gf.group_items[0] if gf.group_items else "?"
     if gf.which == "aggregate":
         h = gf.helper("aggregate_col")
@@ -148,6 +150,8 @@ def apply_block(ctx, gf: GroupFacts, rule: str) -> None:
         ctx.ob(rule, gf.f, "apply", False, "", gf.f.node, message=f"{gf.which}: apply block not found")
         return
     problems = []
+    if gf.partition_error:
+        raise AnalysisError(gf.partition_error)
     gi = gf.group_items[0] if gf.group_items else "?"
     loops = [s for s in b.body if isinstance(s, ast.For)]
     if len(loops) != 1 or ".items()" not in short(loops[0].iter):
@@ -205,6 +209,8 @@ def key_columns(ctx, gf: GroupFacts, rule: str) -> None:
     f = gf.f
     over = gf.over
     problems = []
+    if gf.partition_error and gf.which == "aggregate":
+        raise AnalysisError(gf.partition_error)
     gi = gf.group_items[0] if gf.group_items else "?"
     loops = [s for s in gf.body if isinstance(s, ast.For) and (short(s.iter) in (over, f"enumerate({over})"))
              and any(isinstance(n, ast.Call) and short(n.func) == "result_cols.append" for n in walk_no_nested(s))]
